@@ -148,3 +148,98 @@ def evaluate(s, env=None):
     """Convenience: (value, State)."""
     st = State()
     return ev(s, env or {}, st), st
+
+
+# ---- running error analysis --------------------------------------------------------------------------------
+# When float constants are in play the two trees are compared with a tolerance derived from a forward error
+# bound instead of a fixed relative tolerance: every float constant is given the uncertainty of a few rounded
+# operations (it may be the result of folding), and the bound is propagated through the operations.  A
+# difference larger than SLACK x (bound of one tree + bound of the other) is not floating-point rounding.
+
+EPS = Fraction(1, 2 ** 52)
+U = 4 * EPS
+SLACK = 64
+HUGE_ERR = None  # marks 'no usable bound'
+
+
+def ev_err(s, env):
+    """(value, error bound) with the conventions of ev(); value may be UNDEF / SKIP (bound then None)"""
+    if s is None:
+        return UNDEF, None
+    tag, payload, ls, rs = s
+    if tag == "c":
+        st = State(False)
+        v = _const(payload, st)
+        if v is UNDEF:
+            return UNDEF, None
+        return v, (abs(v) * U if payload[0] in ("f", "nf") else Fraction(0))
+    if tag == "v":
+        v = env.get(payload, UNDEF)
+        return v, (Fraction(0) if v is not UNDEF else None)
+    if tag in ("neg", "!", "sgn", "abs"):
+        a, ea = ev_err(ls if ls is not None else rs, env)
+        if a is UNDEF or a is SKIP:
+            return a, None
+        if ea is None:
+            return SKIP, None
+        if tag == "neg":
+            return -a, ea
+        if tag == "abs":
+            return abs(a), ea
+        if tag == "sgn":
+            if abs(a) <= ea * SLACK or (ea > 0 and abs(a) <= NEAR):
+                return SKIP, None
+            return Fraction((a > 0) - (a < 0)), Fraction(0)
+        if ea > 0 and a.denominator != 1:
+            return SKIP, None
+        if a.denominator != 1 or a < 0:
+            return UNDEF, None
+        if a > 300:
+            return SKIP, None
+        return Fraction(math.factorial(a.numerator)), Fraction(0)
+    a, ea = ev_err(ls, env)
+    if a is UNDEF:
+        return UNDEF, None
+    b, eb = ev_err(rs, env)
+    if b is UNDEF:
+        return UNDEF, None
+    if a is SKIP or b is SKIP or ea is None or eb is None:
+        return SKIP, None
+    fl = (ea > 0 or eb > 0)
+    if tag == "+":
+        r = a + b
+        return r, ea + eb + (abs(r) * EPS if fl else 0)
+    if tag == "-":
+        r = a - b
+        return r, ea + eb + (abs(r) * EPS if fl else 0)
+    if tag == "*":
+        r = a * b
+        return r, abs(a) * eb + abs(b) * ea + ea * eb + (abs(r) * EPS if fl else 0)
+    if tag == "/":
+        if b == 0:
+            return UNDEF, None
+        if abs(b) <= eb * SLACK:
+            return SKIP, None  # the divisor is within rounding of zero: not judged
+        r = a / b
+        return r, (ea + abs(r) * eb) / (abs(b) - eb) + abs(r) * EPS
+    if tag == "^":
+        st = State(True)
+        r = _pow(a, b, st)
+        if r is UNDEF or r is SKIP:
+            return r, None
+        if b.denominator == 1 and eb == 0:
+            k = abs(b.numerator)
+            if ea == 0:
+                return r, (abs(r) * EPS if b.numerator < 0 else Fraction(0))
+            if a == 0:
+                return r, ea ** max(k, 1)
+            # first-order bound with a factor 2 for the higher-order terms
+            return r, 2 * k * abs(r) * ea / abs(a) + abs(r) * EPS
+        # non-integer or uncertain exponent: libm-level accuracy, generous relative bound
+        rel = Fraction(1, 10 ** 9)
+        if a != 0:
+            rel += (abs(b) + 1) * ea / abs(a) * 4
+        if eb > 0 and a > 0:
+            rel += eb * Fraction(abs(math.log(float(a))) + 1) * 4
+        return r, abs(r) * rel
+    return UNDEF, None
